@@ -42,7 +42,10 @@ META = dict(
                "taskiq.api.run_receiver_task runs as a task of an embedding application that cancels it while sync task functions "
                "(taking virtual time) run in / wait queued inside a pool with fewer threads than sync tasks in flight, and goes on "
                "running its loop: the same oracle over what the callbacks left behind do; an ack call under when_executed for a "
-               "function that never started (and did not time out) is a violation. Part of the command-line listen scenarios is "
+               "function that never started (and did not time out) is a violation. In ~10 percent of the listen scenarios a task is "
+               "registered WHILE listen() runs (through async_shared_broker or on the worker's broker) after 1-2 messages naming it "
+               "have already arrived (those: no claim); the messages naming it that arrive strictly after the registration are "
+               "ordinary members of the quantifier. Part of the command-line listen scenarios is "
                "run by the real start_listen on the loop it creates.",
     level_note="Scope (the reading that demands less): malformed / unknown-task messages are never acknowledged by the code "
                "and are outside the statement (C01 covers them); hook failure is outside the quantifier, but the ack "
@@ -85,11 +88,13 @@ ORACLES = [L.oracle_c02]
 # (Family one calls receiver.callback itself, one asyncio task per message: whatever the runner does between taking a
 # message from the queue and its callback - which message object a callback task gets - is invisible there.)
 PROF_LISTEN = dict(limited_only=True, backlog=True, A_choices=[1, 2, 2, 3, 3, 4], P_choices=[0, 1, 2, 2, 2, 3, 3, 4], equal_p=.5, stop_p=.3, n_p=.15, ends_p=.15,
-                   wtt_p=.1, slowcancel=.1, aw_p=.15, outage_p=.08, wire_p=.1)
+                   wtt_p=.1, slowcancel=.1, aw_p=.15, outage_p=.08, wire_p=.1, early_p=.1)
 # an application embeds the receiver (run_receiver_task) and cancels that task while sync functions wait in a small pool
 # (recv_props.gen_live_cancel)
 PROF_CANCEL = dict(stop_p=.12, n_p=.08, ends_p=.1, wtt_p=.08, slowcancel=.05, aw_p=.12, outage_p=.05, wire_p=.1)
-PROF_LISTEN_MIX = dict(equal_p=.3, stop_p=.4, n_p=.25, ends_p=.2, wtt_p=.15, aw_p=.15, wire_p=.1)
+# early_p: 1-2 messages name a task BEFORE it is registered (no claim about them), the task is registered while listen() runs, later
+# messages naming it are ordinary members of the quantifier (recv_props.decorate_early)
+PROF_LISTEN_MIX = dict(equal_p=.3, stop_p=.4, n_p=.25, ends_p=.2, wtt_p=.15, aw_p=.15, wire_p=.1, early_p=.15)
 
 
 in_quantifier = R.ack_in_quantifier
@@ -127,6 +132,10 @@ def oracle_listen(sc, obs):
                             expected="exactly one call", sig=dict(sig, kind="twice")))
             continue
         if m["kind"] != "ok" or m.get("ack", "none") == "none":
+            continue
+        if m.get("early"):
+            # it arrived before the task it names was registered (recv_props.decorate_early): skipped like an unknown-task message
+            # or - its callback started after the registration - processed like a valid one; no claim either way
             continue
         bin_, bout = pos.get(("body.in", i), []), pos.get(("body.out", i), [])
         if at == "when_received":
@@ -206,6 +215,7 @@ def explore_listen(ctx, rep, scs, label):
         for f in oracle_listen(sc, o):
             rep.fail(f["what"], sc, observed=f["observed"], expected=f["expected"], sig=f["sig"])
         R.count_inputs(rep, sc)
+        R.count_early(rep, sc, o)
         if R.is_live(sc):
             R.count_live(rep, sc, o)
         rep.count("listen:ack_type=%s" % sc.get("ack_type"))
